@@ -107,7 +107,7 @@ static void *do_acquire(size_t size) {
     return u;
 }
 
-static void do_release(void *p) {
+static void do_release(void *p, bool internal = false) {
     if (S.cfg.yield_points) sim::yield(sim::PK_HARNESS, nullptr, 2);
     auto it = S.live.find(p);
     if (it == S.live.end()) {
@@ -118,14 +118,14 @@ static void do_release(void *p) {
     Hdr *h = it->second;
     check_block(h, "release");
     uint8_t *u = user_of(h);
-    if ((h->flags & 1) || S.require_zero_all) {
+    if (!internal && ((h->flags & 1) || S.require_zero_all)) {
         S.zero_checked++;
         for (size_t i = 0; i < h->size; i++)
             if (u[i] != 0)
                 sim::violation("secure-zero", "block #%llu (size %zu) handed back to the allocator with non-zero byte at offset %zu",
                                (unsigned long long)h->id, h->size, i);
     }
-    if (S.hook) S.hook(p, h->size, S.hook_ud);
+    if (S.hook && !internal) S.hook(p, h->size, S.hook_ud); // only releases requested by the code under test
     S.live.erase(it);
     h->magic = MAGIC_FREE;
     memset(u, FREE_BYTE, h->cap + GUARD);
@@ -158,7 +158,7 @@ static void *vt_realloc(struct aws_allocator *, void *old, size_t oldsize, size_
     size_t keep = h->size < newsize ? h->size : newsize;
     void *np = do_acquire(newsize);
     memcpy(np, old, keep);
-    do_release(old);
+    do_release(old, true);
     S.moved++;
     return np;
 }
@@ -226,6 +226,10 @@ size_t block_size(const void *p) {
 void expect_zero_on_release(const void *p) {
     auto it = S.live.find(p);
     if (it != S.live.end()) it->second->flags |= 1;
+}
+void clear_expect_zero(const void *p) {
+    auto it = S.live.find(p);
+    if (it != S.live.end()) it->second->flags &= ~(uint64_t)1;
 }
 void set_require_zero_all(bool on) { S.require_zero_all = on; }
 void set_release_hook(release_hook_fn fn, void *ud) { S.hook = fn; S.hook_ud = ud; }
